@@ -125,6 +125,7 @@ type Gen struct {
 	globals    map[*ssa.Global]*Cell
 	cellGlobal map[*Cell]*ssa.Global
 	gocallFns  map[string][2]string // helpers turned into SMT functions (gocall)
+	kvIters    map[string]*kvIter   // store iterators by their enumeration function
 	relied     map[string]bool      // repository contracts and lemmas used by this function\'s proof
 	freshMaps  map[string]bool      // map locations made by the function and not written since (syntactic)
 	preTheory  []string             // declarations that theory modules may refer to (emitted before the theory text)
